@@ -44,6 +44,9 @@ WithDecodes(raw) ==
             IF f = "decodes" THEN DecodesOK(raw[n])
             ELSE IF f = "outer" THEN OuterAfter(raw[n]) ELSE raw[n][f]]]
 
+(* the service's folded token and gas ledgers agree with Token.tla and GasService.tla (see ITS.tla) *)
+ComposeStep(s, a, r) == TokenRefines(s, a, r, Deviations) /\ GasRefines(s, a, r)
+
 Obs(s) ==
     [trusted |-> s.trusted, reg |-> s.reg, regTok |-> s.regTok, tokMeta |-> s.tokMeta, bal |-> s.bal,
      minters |-> s.minters, gas |-> s.gas, appr |-> s.appr, fkMeta |-> s.fkMeta, owner |-> s.owner,
